@@ -1,6 +1,100 @@
 import SigpyVerif.Model.Py
 import SigpyVerif.Model.Proto
+import SigpyVerif.Model.C11
 namespace SigpyVerif.Drv.C11
+open SigpyVerif SigpyVerif.Proto SigpyVerif.C11
+
+/-
+  Requests (tokens after `C11`):
+    call a=<rat> sh=<ints> x=<crats> :: <expr>      -> ok <shape> | <crats>      (P(α, x))
+    kkt eps=<rat> x=<crats>                          -> ok feasible=<0|1> theta=<rat|none> kkt=<0|1>
+    hard lam=<rat> x=<crats>                         -> ok <crats>
+  <expr> (prefix):  noop S | l1reg S lam | l2reg S lam Y | l2regH S lam Y <expr> | l2proj S eps Y AX
+                  | linf S eps Y | l1proj S eps | box S LO HI | conj <expr> | stack n <expr>*n
+                  | unitary ISH OSH M <expr>
+    S, AX: int lists (`-` empty, `none`), Y: crat list or `none`, LO/HI: rat lists,
+    M: rows separated by `|`, entries by `,`.
+-/
+
+def optCList (s : String) : Option (Option (Array CQ)) :=
+  if s == "none" then some none else (parseCRatList? s).map (fun l => some l.toArray)
+
+def optIList (s : String) : Option (Option (List Int)) :=
+  if s == "none" then some none else (parseIntList? s).map some
+
+def parseMat (s : String) : Option (Array (Array CQ)) :=
+  ((s.splitOn "|").mapM fun r => (parseCRatList? r).map List.toArray).map List.toArray
+
+mutual
+def parseE : Nat → List String → Option (PExpr × List String)
+  | 0, _ => none
+  | fuel + 1, toks =>
+    match toks with
+    | "noop" :: s :: rest => do pure (.noop (← parseIntList? s), rest)
+    | "l1reg" :: s :: l :: rest => do pure (.l1reg (← parseIntList? s) (← parseRat? l), rest)
+    | "l2reg" :: s :: l :: y :: rest => do pure (.l2reg (← parseIntList? s) (← parseRat? l) (← optCList y), rest)
+    | "l2regH" :: s :: l :: y :: rest => do
+        let (h, rest') ← parseE fuel rest
+        pure (.l2regH (← parseIntList? s) (← parseRat? l) (← optCList y) h, rest')
+    | "l2proj" :: s :: e :: y :: ax :: rest => do
+        pure (.l2proj (← parseIntList? s) (← parseRat? e) ((← parseCRatList? y).toArray) (← optIList ax), rest)
+    | "linf" :: s :: e :: b :: rest => do pure (.linfproj (← parseIntList? s) (← parseRat? e) (← optCList b), rest)
+    | "l1proj" :: s :: e :: rest => do pure (.l1proj (← parseIntList? s) (← parseRat? e), rest)
+    | "box" :: s :: lo :: hi :: rest => do
+        pure (.box (← parseIntList? s) ((← parseRatList? lo).toArray) ((← parseRatList? hi).toArray), rest)
+    | "conj" :: rest => do
+        let (p, rest') ← parseE fuel rest
+        pure (.conj p, rest')
+    | "stack" :: n :: rest => do
+        let k ← n.toNat?
+        let (ps, rest') ← parseL fuel k rest
+        pure (.stack ps, rest')
+    | "unitary" :: ish :: osh :: m :: rest => do
+        let (p, rest') ← parseE fuel rest
+        pure (.unitary p (← parseIntList? ish) (← parseIntList? osh) (← parseMat m), rest')
+    | _ => none
+def parseL : Nat → Nat → List String → Option (PList × List String)
+  | 0, _, _ => none
+  | _ + 1, 0, toks => some (.nil, toks)
+  | fuel + 1, k + 1, toks => do
+      let (p, rest) ← parseE fuel toks
+      let (ps, rest') ← parseL fuel k rest
+      pure (.cons p ps, rest')
+end
+
+def splitAt (toks : List String) : List String × List String :=
+  (toks.takeWhile (· ≠ "::"), (toks.dropWhile (· ≠ "::")).drop 1)
+
 /-- protocol handler for property C11 (tokens after the property id). -/
-def handle (_toks : List String) : String := "err bad-op"
+def handle (toks : List String) : String :=
+  match toks.head? with
+  | some "call" =>
+    let (args, etoks) := splitAt toks
+    match (kv args "a").bind parseRat?, (kv args "sh").bind parseIntList?, (kv args "x").bind parseCRatList?,
+          parseE (etoks.length + 1) etoks with
+    | some a, some sh, some x, some (e, []) =>
+      match call e a ⟨sh, x.toArray⟩ with
+      | .ok out => s!"ok {fmtIntList out.shape} | {fmtCRatList out.data.toList}"
+      | .error k => s!"err {k}"
+    | _, _, _, _ => "err bad-op"
+  | some "kkt" =>
+    match (kv toks "eps").bind parseRat?, (kv toks "x").bind parseCRatList? with
+    | some eps, some x =>
+      match moduli x.toArray with
+      | .error k => s!"err {k}"
+      | .ok mods =>
+        let norm1 := mods.foldl (· + ·) 0
+        if Gen.Prox.l1projFeasible norm1 eps then "ok feasible=1 theta=none kkt=1" else
+        match duchiTheta eps mods with
+        | none => "ok feasible=0 theta=none kkt=0"
+        | some θ => s!"ok feasible=0 theta={fmtRat θ} kkt={fmtBool (kktOk eps θ mods)}"
+    | _, _ => "err bad-op"
+  | some "hard" =>
+    match (kv toks "lam").bind parseRat?, (kv toks "x").bind parseCRatList? with
+    | some lam, some x =>
+      match mapE (chardQ lam) x.toArray with
+      | .ok d => s!"ok {fmtCRatList d.toList}"
+      | .error k => s!"err {k}"
+    | _, _ => "err bad-op"
+  | _ => "err bad-op"
 end SigpyVerif.Drv.C11
